@@ -62,5 +62,5 @@ fn basisconv_contract(bits: u32) {
 #[kani::stub(crate::backend::w64::addcarry_u64, st_addcarry_u64)]
 #[kani::stub(crate::backend::w64::subborrow_u64, st_subborrow_u64)]
 fn verif_lag_basisconv_q() {
-    basisconv_contract(6);
+    basisconv_contract(5);
 }
